@@ -223,7 +223,10 @@ func (m *c21Mon) afterBlock() {
 	}
 	subD := c21Diff(post.SubMod, pre.SubMod)
 	iprpcD := c21Diff(post.Iprpc, pre.Iprpc)
-	payout := c21AnyNeg(subD)      // cu-tracker payout(s) moved coins out of the subscription module
+	// cu-tracker payout(s) moved coins out of the subscription module; a payout can hide behind an
+	// auto-renewal charge of the same block (net inflow), so the participation event emitted by
+	// ContributeToValidatorsAndCommunityPool in this End/BeginBlock counts as well
+	payout := c21AnyNeg(subD) || m.s.BlockEmitted("lava_validators_and_community_fund")
 	iprpcPaid := c21AnyNeg(iprpcD) // IPRPC distribution took coins out of the IPRPC pool
 	leftD := c21Diff(post.ValLeft, pre.ValLeft)
 
